@@ -102,6 +102,11 @@ def generate(rng, cfg, guards):
             ops.append([k, r8(), a, r8()])
         elif k == 'set_meta':
             ops.append([k, r8(), rng.randrange(6), rng.randrange(5)])
+        elif k == 'reorder':
+            # every Data format stores the attributes in their present order, coordinate attributes included
+            ops.append([k, r8(), rng.randrange(1000)])
+        elif k == 'set_coords':
+            ops.append([k, r8(), rng.pick([1, 2, 2, 0])])
         else:
             ops.append(['restart', True, True, None, 0, False])
     ops.append(['restart', True, True, None, 0, False])
